@@ -24,10 +24,10 @@ import (
 )
 
 var c19Personalities = []string{"silent", "answers", "inbound-chatty", "alive-after-probe", "reply-outstanding", "outbound-chatty", "answers-then-silent",
-	"own-write-after-each-timeout", "send-inside-probe-window", "alive-after-probe-slow-handler", "alive-after-probe-answered", "send-at-threshold-expiry"}
+	"own-write-after-each-timeout", "send-inside-probe-window", "alive-after-probe-slow-handler", "alive-after-probe-answered", "send-at-threshold-expiry", "reselect-then-silent"}
 
 func TestC19Linktest(t *testing.T) {
-	ev.Rule("(role, threshold 1..4, suppression on/off, interval 40/60/100 ms, T6 50/80 ms) x peer personality: silent; answers every probe; chatty (sends data every interval/2, never answers); alive only after each probe (a data frame 5 ms after every Linktest.req, never answers) - with a data handler that returns at once or only after T6 + 20 ms, or with a life frame the library answers (the peer's own Linktest.req / a reply-expected primary); reply outstanding (a reply-expected send in flight, peer silent, T3 2 s); local fire-and-forget traffic every interval/2 with a silent peer; answers for a while then falls silent; a reply-expected send started at exactly the instant the threshold-th probe times out (drop at exactly that instant, or no drop while the reply is outstanding); oracle (virtual time): a dead silent link is dropped at exactly threshold x (interval + T6) after its last sign of life and after exactly `threshold` probes; a link showing life per the suppression rules is never dropped over 6 x that; with suppression no probe is sent while traffic flowed within the last interval or a reply is outstanding; without it one probe per interval and every timeout counts; non-trivial = the personality shows life at least once and the run contains at least one probe timeout")
+	ev.Rule("(role, threshold 1..4, suppression on/off, interval 40/60/100 ms, T6 50/80 ms) x peer personality: silent; answers every probe; chatty (sends data every interval/2, never answers); alive only after each probe (a data frame 5 ms after every Linktest.req, never answers) - with a data handler that returns at once or only after T6 + 20 ms, or with a life frame the library answers (the peer's own Linktest.req / a reply-expected primary); reply outstanding (a reply-expected send in flight, peer silent, T3 2 s); local fire-and-forget traffic every interval/2 with a silent peer; answers for a while then falls silent; a reply-expected send started at exactly the instant the threshold-th probe times out (drop at exactly that instant, or no drop while the reply is outstanding); a session deselected and re-selected on the same connection before the peer falls silent; oracle (virtual time): a dead silent link is dropped at exactly threshold x (interval + T6) after its last sign of life and after exactly `threshold` probes; a link showing life per the suppression rules is never dropped over 6 x that; with suppression no probe is sent while traffic flowed within the last interval or a reply is outstanding; without it one probe per interval and every timeout counts; non-trivial = the personality shows life at least once and the run contains at least one probe timeout")
 	vt.Bubble(t, func(t *testing.T) {
 		vt.CheckBubble(t, 1500, 60000, func(rt *rapid.T) { runC19(rt) })
 	})
@@ -129,6 +129,40 @@ func runC19(rt *rapid.T) {
 	sawTimeout := false
 	showsLife := false
 	switch pers {
+	case "reselect-then-silent":
+		// The session is deselected and selected again on the SAME TCP connection (0-2 times), then the
+		// peer falls silent: the automatic linktest of the re-established session must be running - the
+		// dead link is dropped on the schedule of a fresh session, counted from the last select.
+		for i, n := 0, rapid.IntRange(1, 2).Draw(rt, "reselects"); i < n; i++ {
+			_ = p.Send(e37.Control(e37.DeselectReq, 0xffff, 0, 0, 0x6d00+uint32(i)))
+			synctest.Wait()
+			if w.conn.State() != hsms.NotSelectedState {
+				fail("State()=%v after a Deselect.req", w.conn.State())
+			}
+			time.Sleep(time.Duration(rapid.IntRange(0, 30).Draw(rt, "pauseMs")) * time.Millisecond)
+			_ = p.Send(e37.Control(e37.SelectReq, 0xffff, 0, 0, 0x6e00+uint32(i)))
+			synctest.Wait()
+			if w.conn.State() != hsms.SelectedState {
+				fail("State()=%v after the re-select", w.conn.State())
+			}
+		}
+		// the clock of the expectations restarts at the last select; probes seen before it do not count
+		p.Take()
+		earlier := len(probeTimes())
+		t0 = time.Now()
+		time.Sleep(B + 3*B + time.Second)
+		synctest.Wait()
+		sawTimeout = true
+		eof, when, _ := p.EOF()
+		if !eof {
+			fail("after deselect + re-select on the same connection the silent peer was never dropped: the linktest of the re-established session is not running")
+		}
+		if d := when.Sub(t0); d != B {
+			fail("after deselect + re-select the silent link was dropped +%v after the last select, a fresh session is dropped after %v", d, B)
+		}
+		if n := len(probeTimes()) - earlier; n != threshold {
+			fail("%d probes between the last select and the drop, the threshold is %d", n, threshold)
+		}
 	case "silent":
 		// probes at I, I+(I+T6), ...; each times out T6 later; the threshold-th timeout drops the link
 		expectDropAt(B, threshold)
